@@ -383,7 +383,8 @@ func GenScript(rt *rapid.T, p *Profile) *Script {
 	}
 	if p.Teardown {
 		// every teardown history ends with the server closed and two quiet hours
-		sc.Steps = append(sc.Steps, Step{Op: "CloseServer", Life: -1, N: rapid.SampledFrom([]int{0, 0, 2, 6, 20}).Draw(rt, "closeInFlight")}, Step{Op: "Sleep", N: 7200, Life: -1})
+		sc.Steps = append(sc.Steps, Step{Op: "CloseServer", Life: -1, N: rapid.SampledFrom([]int{0, 0, 2, 6, 20}).Draw(rt, "closeInFlight"),
+			Opt: rapid.SampledFrom([]string{"", "", "relay-close-error"}).Draw(rt, "closeOpt")}, Step{Op: "Sleep", N: 7200, Life: -1})
 	}
 
 	return sc
